@@ -1,7 +1,7 @@
 """Virtual asyncio event loop: no selector, virtual clock, stepped by hand.
 
 Stock Task / Future / Queue / wait_for work unchanged (they only use BaseEventLoop bookkeeping).
-run_in_executor runs the function inline. Environment events are futures handed out by `Env.gate()`.
+run_in_executor runs the function at once and completes its future through the ready queue (the awaiting task yields). Environment events are futures handed out by `Env.gate()`.
 At every step the driver chooses among: run the head of the ready queue (FIFO), deliver one pending
 environment event, fire the earliest timer (clock jumps).
 """
@@ -37,11 +37,18 @@ class VLoop(base_events.BaseEventLoop):
         pass
 
     def run_in_executor(self, executor, fn, *args):
+        # The function runs at once (one legal linearisation of the worker thread), but its future completes through the
+        # ready queue, as on the stock loop: the awaiting task really yields and every other ready task gets its turn.
         f = self.create_future()
         try:
-            f.set_result(fn(*args))
+            res, exc = fn(*args), None
         except BaseException as e:  # noqa
-            f.set_exception(e)
+            res, exc = None, e
+
+        def complete():
+            if not f.done():
+                f.set_exception(exc) if exc is not None else f.set_result(res)
+        self.call_soon(complete)
         return f
 
     # -- manual stepping -------------------------------------------------
